@@ -102,6 +102,12 @@ prop("C13", engine="migsim", level="exploration", technique="deterministic simul
      text="After start every accessor (peers, ids, base CID, selector, totals, indexes, message, vouchers, results, limit, finalisation flag, stage log) equals the stored value; deprecated paused statuses become Ongoing + flags; no /2 key survives, version key is 3; operations that complete before the version key is written are refused; each pre-registered ready listener fires exactly once with nil; further starts change no byte under /3 and the version key; migrated non-terminal channels accept and persist events.",
      note="channels an early operation targeted are exempt from the field comparison (the operation may legitimately act once the store is ready)")
 
+prop("C16", engine="tpsim", level="exploration", technique="deterministic simulation of two real graphsync Transports over the SimGraphsync model with scripted recording EventsHandlers; routing oracle by block ownership, request ids and hook-invocation intervals",
+     rule="one evaluation = one seeded run: 1-3 channels (push and pull, distinct DAGs with duplicate links, optional per-channel stores) between two real Transports without managers; per channel a driver task opens the channel and issues 0-6 of: pause, resume (plain or carrying a distinguishable message), restart with the recorded received-count, close, cleanup, and foreign graphsync requests from a stranger endpoint (no data-transfer extension / malformed extension / well-formed request for an unknown transfer); handlers answer from a script (pause on request, pause at the k-th queued / received block); 10 simulated minutes; non-trivial = every run; distinct = schedule hash",
+     probes=["pause-resume-routed", "completion-reported", "foreign-graphsync-request", "some-blocks-not-on-wire", "restart-skip-checked", "second-gs-request", "resume-message-delivered"], real=["transport/graphsync (Transport, dtChannel, requestIDToChannelIDMap)", "transport/graphsync/extension", "message codecs"], stubs=["graphsync engine -> SimGraphsync model (hooks, listeners, pause/unpause/cancel semantics of v0.18.0)", "EventsHandler -> scripted recording double"], assumptions=["a callback belongs to the hook invocation that is running on its task; 'after cleanup' is judged by when that invocation began"],
+     text="Every handler call names a known channel built from the authenticated peers; block callbacks name the channel whose DAG holds the block and fire on the right side only; nothing is reported for foreign requests or after a cleanup; queued/sent callbacks never exceed the blocks actually put on the wire; pause/unpause reach the channel's current request id; OnChannelCompleted fires at most once per completed response/request with an error iff it did not complete in full, never for cancellations; the per-channel store is registered exactly from UseStore to cleanup. Also serves C10: exact do-not-send-first-blocks count, previous request cancelled before the next, queued resume message delivered at most once.",
+     note="")
+
 ORDER = ["C%02d" % i for i in range(1, 21)]
 PENDING = {pid: "check under construction in this session (engine not yet registered); not claimed until its quick command runs clean" for pid in ORDER if pid not in P}
 
@@ -146,6 +152,7 @@ def main():
             {"name": "wire", "path": "sim/wire.go", "serves_properties": ["C12"], "kind_free_text": "message codecs under generated inputs and stream faults, reference encoder from the schema"},
             {"name": "netunit", "path": "sim/netunit.go", "serves_properties": ["C15"], "kind_free_text": "real network layer on SimHost with scripted faults"},
             {"name": "migsim", "path": "sim/migsim.go", "serves_properties": ["C13"], "kind_free_text": "manager start-up on independently encoded version-2 stores"},
+            {"name": "tpsim", "path": "sim/tpsim.go", "serves_properties": ["C16", "C10"], "kind_free_text": "two real graphsync transports with scripted handlers over the graphsync model"},
             {"name": "netsim", "path": "sim/netscen.go", "serves_properties": ["C01", "C02", "C04", "C09", "C10", "C11", "C19", "C20"], "kind_free_text": "two real managers over SimHost/SimGraphsync/SimDisk under the simrt baton scheduler, with fault injection"},
         ],
         "checks": checks,
